@@ -11,6 +11,7 @@
 import GIV.Lemmas.TxtarQuote
 import GIV.Lemmas.TxtarCRLF
 import GIV.Lemmas.TxtarIdxLoop
+import GIV.Lemmas.TxtarGoLoop
 
 namespace GIV.C03
 open GIV GIV.Txtar
@@ -167,5 +168,61 @@ theorem parseIdx_format_parseIdx : ∀ d a, parseIdx d = some a → parseIdx (fo
   fun d a h => by
     rw [index_form_agrees] at h ⊢
     exact parse_format_parse d a h
+
+/-! ### tie to the Go code: the regenerated translation
+
+`GIV.Gen.TxtarGo` is *generated* on every check run from /repo/txtar/archive.go by the Go→Lean
+translator (harness/internal/go2lean): `GIV.Go.Txtar.Parse`, `findFileMarker`, `isMarker`, `fixNL`
+are the Go functions, statement by statement, in the Option monad (`none` = a Go panic or an
+exhausted loop budget).  `GIV/Lemmas/TxtarGo*.lean` prove them equal to the index form for all
+inputs; so the property theorems hold of the code the translator read from the source now. -/
+
+open GIV.TxtarGo in
+/-- The translated `Parse` is the model's `parse` (panics and loop budget included). -/
+theorem go_Parse_agrees : ∀ d, GIV.Go.Txtar.Parse d = (parse d).map toGoArchive :=
+  have : FLit := ⟨rfl, rfl⟩; have : FNLM := ⟨rfl⟩
+  fun d => by rw [Parse_eq, parseIdx_eq]
+
+example : GIV.Go.Txtar.Parse (lit "x\n-- a --\r\ny\n-- b --") =
+    some ⟨lit "x\n", [⟨lit "a", lit "y\n"⟩, ⟨lit "b", []⟩]⟩ := by decide +kernel
+
+open GIV.TxtarGo in
+/-- … and so are its `findFileMarker`, `isMarker` and `fixNL`. -/
+theorem go_helpers_agree : ∀ d,
+    GIV.Go.Txtar.findFileMarker d = (findFileMarkerIdx d).map toGo3 ∧
+    GIV.Go.Txtar.isMarker d = (isMarkerIdx d).map optB ∧
+    GIV.Go.Txtar.fixNL d = some (fixNL d) :=
+  fun d => ⟨findFileMarker_eq d, isMarker_eq d, fixNL_eq d⟩
+
+/-- The translated `Parse` never panics and never runs out of its loop budget. -/
+theorem go_Parse_total : ∀ d, (GIV.Go.Txtar.Parse d).isSome := by
+  intro d
+  rw [go_Parse_agrees]
+  have := parse_total d
+  cases h : parse d with
+  | none => rw [h] at this; cases this
+  | some a => rfl
+
+open GIV.TxtarGo in
+/-- Re-parse stability of the translated `Parse`: `Parse (Format (Parse d)) = Parse d`. -/
+theorem go_Parse_format_Parse : ∀ d g, GIV.Go.Txtar.Parse d = some g →
+    GIV.Go.Txtar.Parse (format (ofGoArchive g)) = some g := by
+  intro d g h
+  rw [go_Parse_agrees] at h
+  cases hp : parse d with
+  | none => rw [hp] at h; cases h
+  | some a =>
+    rw [hp] at h
+    simp only [Option.map_some, Option.some.injEq] at h
+    subst h
+    rw [ofGo_toGo, go_Parse_agrees, parse_format_parse d a hp]
+    rfl
+
+open GIV.TxtarGo in
+/-- `Parse (Format a) = a` for every well-formed archive, for the translated `Parse`. -/
+theorem go_format_Parse_wf : ∀ a, WellFormed a → GIV.Go.Txtar.Parse (format a) = some (toGoArchive a) := by
+  intro a h
+  rw [go_Parse_agrees, format_parse_wf a h]
+  rfl
 
 end GIV.C03
